@@ -351,6 +351,12 @@ impl Replayer {
                     // expired: lifetime starting in the year 2000; cred: an identity every identity provider rejects
                     "expired" => self.w.bad_clients["bad-expired"].generate_key_package_message(Default::default(), Default::default(), Some(mls_rs::time::MlsTime::from(946_684_800u64))),
                     "cred" => self.w.bad_clients["rejected"].generate_key_package_message(Default::default(), Default::default(), None),
+                    _ if args.get("lr").and_then(|b| b.as_bool()).unwrap_or(false) => {
+                        use mls_rs::extension::MlsExtension;
+                        let mut kpx = mls_rs::ExtensionList::new();
+                        kpx.set(mls_rs::extension::recommended::LastResortKeyPackageExt.into_extension().expect("last resort ext"));
+                        party.client.generate_key_package_message(kpx, Default::default(), None)
+                    }
                     _ => party.client.generate_key_package_message(Default::default(), Default::default(), None),
                 };
                 match gen {
@@ -367,6 +373,7 @@ impl Replayer {
                                 viol!(self, ["C09"], "kp-init-key", "{e}");
                             }
                         }
+                        if args.get("lr").and_then(|b| b.as_bool()).unwrap_or(false) { self.w.last_resort.insert(store_id.clone()); }
                         self.w.kps.push(KpEntry { owner: p.clone(), msg: m, store_id });
                         "ok".into()
                     }
@@ -487,7 +494,13 @@ impl Replayer {
                         self.w.written.insert(p.clone(), st);
                         // C07: once the joiner persists its group the used key package is gone from its store
                         if let Some(id) = self.w.joined_with.get(&p) {
-                            if self.w.parties[&p].kp.peek(id).is_some() {
+                            if self.w.last_resort.contains(id) {
+                                // a last-resort package is never used up
+                                if self.w.parties[&p].kp.peek(id).is_none() {
+                                    viol!(self, ["C07"], "last-resort-kp-deleted", "{p}: the last-resort key package used to join was deleted from the key-package store");
+                                }
+                                self.w.bump("last_resort_kept_checks");
+                            } else if self.w.parties[&p].kp.peek(id).is_some() {
                                 viol!(self, ["C07"], "kp-not-deleted", "{p}: key package used to join is still in the key-package store after write_to_storage");
                             }
                             self.w.bump("kp_deleted_checks");
